@@ -175,6 +175,14 @@ class FuncKinds:
             return (t[0][::-1], t[1]) if t else None
         if isinstance(v, ast.Constant):
             return ([], None)
+        if isinstance(v, ast.Call) and ast.unparse(v.func) in ("len", "float", "int", "np.sqrt", "max", "min") \
+                and (ast.unparse(v.func) in ("len", "float", "int") or all(
+                    (lambda t: t is not None and not t[0])(self.type_of(a)) for a in v.args)):
+            return ([], None)       # a scalar
+        if isinstance(v, ast.Subscript) and isinstance(v.value, ast.Attribute) and v.value.attr == "shape":
+            return ([], None)
+        if isinstance(v, ast.Name) and v.id in self.sizes:
+            return ([], None)
         if isinstance(v, ast.BinOp) and isinstance(v.op, ast.MatMult):
             a, b = self.type_of(v.left), self.type_of(v.right)
             if a is None or b is None or not a[0] or not b[0]:
